@@ -8,6 +8,10 @@ namespace Petl.Snapshot
 open Petl.Gen
 
 def expectedC17 : List (String × String) := [
+  ("file:io/db.py", "29a8207a5d7ac50e"),
+  ("file:io/db_create.py", "511c2584bfe921e5"),
+  ("file:io/db_utils.py", "1b080de0ed8ec655"),
+  ("file:util/base.py", "771a68108eeb730d"),
   ("io.db._iter_dbapi_connection", "2cd387ab719085f4"),
   ("io.db._iter_dbapi_cursor", "fa60968be8c054cc"),
   ("io.db._iter_dbapi_mkcurs", "4b53539bf31380f5"),
